@@ -23,13 +23,16 @@ type c05State struct {
 	w          *world.L1
 	sys        *c05Sys
 	outs       []time.Time // proposal time of the output currently stored at index i+1
+	outs2      []time.Time // bridge 2 (different period): at most one output
 	proposer   string
 	challenger string
 }
 
 type c05Sys struct {
-	period time.Duration
-	tree   *wtree
+	period  time.Duration
+	period2 time.Duration // bridge 2 has another period: a guard reading the wrong bridge's config shows
+	tree    *wtree
+	tree2   *wtree
 }
 
 func newC05Sys(period time.Duration) *c05Sys {
@@ -38,7 +41,15 @@ func newC05Sys(period time.Duration) *c05Sys {
 	for i := 0; i < 4; i++ {
 		ws = append(ws, wd{Bridge: 1, Seq: uint64(i + 1), From: "l2user", To: bob, Denom: "uxx", Amount: 1})
 	}
-	return &c05Sys{period: period, tree: mkTree("c05", ws, 1)}
+	p2 := 3*period + 500*time.Millisecond
+	if period > time.Hour {
+		p2 = 7 * time.Second
+	}
+	var ws2 []wd
+	for i := 0; i < 2; i++ {
+		ws2 = append(ws2, wd{Bridge: 2, Seq: uint64(i + 1), From: "l2user", To: bob, Denom: "uxx", Amount: 1})
+	}
+	return &c05Sys{period: period, period2: p2, tree: mkTree("c05", ws, 1), tree2: mkTree("c05b2", ws2, 1)}
 }
 
 type c05Propose struct{}
@@ -52,14 +63,22 @@ type c05Role struct {
 	role string
 	to   string
 }
+type c05B2 struct{ op string }
 
 var c05Deltas = []time.Duration{-time.Second, -time.Nanosecond, 0, time.Nanosecond, 999 * time.Millisecond, time.Second}
 
 func (y *c05Sys) Root() *c05State {
 	w := newL1TwoBridges(y.period)
-	res := w.Deliver(w.Ctx, ophosttypes.NewMsgInitiateTokenDeposit(world.Addr("alice").String(), 1, "l2addr", world.Coin("uxx", 10), nil))
-	if !res.OK() {
-		panic(res.Err)
+	// re-create bridge 2's config with its own period (same roles)
+	cfg2 := world.BridgeConfig("proposer", "challenger", y.period2)
+	if err := w.HK.SetBridgeConfig(w.Ctx, 2, cfg2); err != nil {
+		panic(err)
+	}
+	for b := uint64(1); b <= 2; b++ {
+		res := w.Deliver(w.Ctx, ophosttypes.NewMsgInitiateTokenDeposit(world.Addr("alice").String(), b, "l2addr", world.Coin("uxx", 10), nil))
+		if !res.OK() {
+			panic(res.Err)
+		}
 	}
 	return &c05State{ctx: w.Ctx, w: w, sys: y, proposer: "proposer", challenger: "challenger"}
 }
@@ -87,6 +106,12 @@ func (y *c05Sys) Letters(s *c05State) []engine.Letter {
 	for i := uint64(1); i <= next && i <= 4; i++ {
 		ls = append(ls, engine.Letter{Name: fmt.Sprintf("Finalize(out=%d)", i), Data: c05Finalize{i}})
 	}
+	if len(s.outs2) == 0 {
+		ls = append(ls, engine.Letter{Name: "ProposeB2", Data: c05B2{"propose"}})
+	} else {
+		ls = append(ls, engine.Letter{Name: "DeleteB2(1,by=challenger)", Data: c05B2{"delete"}})
+	}
+	ls = append(ls, engine.Letter{Name: "FinalizeB2(out=1)", Data: c05B2{"finalize"}})
 	if s.challenger == "challenger" {
 		ls = append(ls, engine.Letter{Name: "UpdateChallenger(challenger2,by=gov)", Data: c05Role{"challenger", "challenger2"}})
 	}
@@ -107,6 +132,11 @@ func (y *c05Sys) Letters(s *c05State) []engine.Letter {
 	for _, tp := range s.outs {
 		for _, d := range c05Deltas {
 			add(tp.Add(y.period).Add(d))
+		}
+	}
+	for _, tp := range s.outs2 {
+		for _, d := range []time.Duration{-time.Second, 0} {
+			add(tp.Add(y.period2).Add(d))
 		}
 	}
 	sort.Slice(ts, func(i, j int) bool { return ts[i].Before(ts[j]) })
@@ -135,7 +165,7 @@ func (y *c05Sys) finals(s *c05State) ([]bool, *engine.Violation) {
 
 func (y *c05Sys) Step(s *c05State, l engine.Letter) (*c05State, string, *engine.Violation) {
 	ctx, _ := s.ctx.CacheContext()
-	c := &c05State{ctx: ctx, w: s.w, sys: y, outs: s.outs, proposer: s.proposer, challenger: s.challenger}
+	c := &c05State{ctx: ctx, w: s.w, sys: y, outs: s.outs, outs2: s.outs2, proposer: s.proposer, challenger: s.challenger}
 	fpar, v := y.finals(s)
 	if v != nil {
 		return c, "error", v
@@ -184,6 +214,45 @@ func (y *c05Sys) apply(s, c *c05State, l engine.Letter, fpar []bool) (string, *e
 		}
 		c.outs = append(append([]time.Time{}, s.outs...), now)
 		return "accepted", nil
+	case c05B2:
+		def2 := func(tp time.Time) bool { return !now.After(tp.Add(y.period2).Add(-time.Second)) }
+		switch d.op {
+		case "propose":
+			res := s.w.Deliver(ctx, ophosttypes.NewMsgProposeOutput(world.Addr("proposer").String(), 2, 1, uint64(ctx.BlockHeight())*10, y.tree2.OutputRoot[:]))
+			if !res.OK() {
+				return "rejected", nil
+			}
+			c.outs2 = []time.Time{now}
+			return "accepted", nil
+		case "delete":
+			res := s.w.Deliver(ctx, ophosttypes.NewMsgDeleteOutput(world.Addr("challenger").String(), 2, 1))
+			if res.OK() {
+				c.outs2 = nil
+				return "accepted", nil
+			}
+			if def2(s.outs2[0]) {
+				return "rejected", tagged(viol("non-final-output-can-be-deleted", "bridge 2 (period %s): delete refused at %s although the output is at least 1s before its deadline: %v", y.period2, now.Sub(world.L1GenesisTime), res.Err), "bridge", "2")
+			}
+			return "rejected-final", nil
+		case "finalize":
+			res := s.w.Deliver(ctx, y.tree2.claim(0, 1, "bob"))
+			if len(s.outs2) == 0 {
+				if res.OK() {
+					return "accepted", viol("deleted-or-missing-output-is-unusable", "bridge 2: finalize accepted without an output")
+				}
+				return "rejected-no-output", nil
+			}
+			gate := res.OK() || !(errors.Is(res.Err, ophosttypes.ErrNotFinalized) || errors.Is(res.Err, collections.ErrNotFound))
+			if gate && def2(s.outs2[0]) {
+				return "gate-passed", tagged(viol("no-finalization-before-the-window", "bridge 2 (period %s, bridge 1 has %s): finalize passed the finality gate at %s; proposed at %s",
+					y.period2, y.period, now.Sub(world.L1GenesisTime), s.outs2[0].Sub(world.L1GenesisTime)), "bridge", "2")
+			}
+			if res.OK() {
+				return "accepted", nil
+			}
+			return "refused", nil
+		}
+		panic("bad b2 op")
 	case c05Role:
 		var res world.DeliverResult
 		if d.role == "challenger" {
@@ -305,6 +374,23 @@ func (y *c05Sys) Check(s *c05State) *engine.Violation {
 			gap = true
 		}
 	}
+	if len(s.outs2) == 1 {
+		f2, err := s.w.HK.IsFinalized(s.ctx, 2, 1)
+		if err != nil {
+			return viol("stored-output-readable", "bridge 2: %v", err)
+		}
+		if f2 && !now.After(s.outs2[0].Add(y.period2).Add(-time.Second)) {
+			return tagged(viol("no-finalization-before-the-window", "bridge 2 (period %s): IsFinalized(1) true at %s; proposed at %s", y.period2, now.Sub(world.L1GenesisTime), s.outs2[0].Sub(world.L1GenesisTime)), "bridge", "2")
+		}
+		r2, err := s.w.Q.LastFinalizedOutput(s.ctx, &ophosttypes.QueryLastFinalizedOutputRequest{BridgeId: 2})
+		want := uint64(0)
+		if f2 {
+			want = 1
+		}
+		if err != nil || r2.OutputIndex != want {
+			return viol("last-finalized-query-names-highest-final", "bridge 2: LastFinalizedOutput=%v, expected %d (err=%v)", r2, want, err)
+		}
+	}
 	resp, err := s.w.Q.LastFinalizedOutput(s.ctx, &ophosttypes.QueryLastFinalizedOutputRequest{BridgeId: 1})
 	if err != nil {
 		return viol("last-finalized-query-names-highest-final", "query failed: %v", err)
@@ -384,7 +470,7 @@ func init() {
 			c05CreateProbes(res, rc.Known.Matcher(rc.Property))
 			periods := c05Periods(rc)
 			for i, p := range periods {
-				o := opts(rc, pick(rc, 7, 9))
+				o := opts(rc, pick(rc, 6, 8))
 				// split the budget over the period menu
 				o.Deadline = rc.Start.Add(rc.Budget * time.Duration(i+1) / time.Duration(len(periods)))
 				name := "period=" + p.String()
